@@ -97,6 +97,10 @@ def analyse(sh, items, tier):
             rm = x86ref.ref_mnemonic(rt)
             if mm and not same_mnemonic(mm, rm):
                 problems.append(('mnemonic', rec, 'bytes mean "%s" but miasmX renders "%s" (%s is not %s; GNU as cannot read the rendering)' % (rt, text, mm, rm)))
+            elif mm and rep_class(rt.split()) != rep_class(text.split()) and (rm.rstrip('bwdl') in ('cmps', 'scas') or (rep_class(rt.split()) == 'f3' and rm.rstrip('bwdl') in ('movs', 'lods', 'stos', 'ins', 'outs'))):
+                # ... and so can a repeat prefix where IA-32 gives it a meaning: f3 on every string instruction, f2 on cmps/scas
+                # (f2 on the others is reserved; miasmX shows it as a raw '[0xf2]', which is not judged)
+                problems.append(('rep-prefix', rec, 'bytes mean "%s" but miasmX renders "%s" (repeat prefix %s vs %s; GNU as cannot read the rendering)' % (rt, text, rep_class(rt.split()), rep_class(text.split()))))
             continue
         gl, gt = back_map[i]
         if gl != len(g):
@@ -148,6 +152,15 @@ def miasm_mnemonic(text):
     return None
 
 
+def rep_class(toks):
+    for t in toks:
+        if t in ('rep', 'repz', 'repe'):
+            return 'f3'
+        if t in ('repnz', 'repne'):
+            return 'f2'
+    return None
+
+
 def same_mnemonic(mm, rm):
     """miasmX and objdump spell some mnemonics differently without disagreeing on the instruction."""
     if mm == rm:
@@ -171,7 +184,7 @@ def shards(tier, seed):
     out = [('cells', i, per) for i in range(0, len(cl), per)]
     out += [('prefixes', i, 32) for i in range(0, len(cl), 32)]
     out += [('addr16', i, 16) for i in range(0, len(cl), 16)]
-    out += [('grids', 0, 0)]
+    out += [('grids', 0, 0), ('stringops', 0, 0)]
     return out
 
 
@@ -186,6 +199,15 @@ def run_shard(shard, tier, seed):
                 items.append((b, cls))
     elif shard[0] == 'grids':
         items = list(x86space.sib_grid(tier)) + list(x86space.disp_grid(tier))
+    elif shard[0] == 'stringops':
+        # string instructions and the other prefix-sensitive one-byte opcodes under every pair (both orders) and some triples of
+        # repeat x operand-size x address-size x segment prefixes: the only place where three prefix kinds all change the meaning
+        singles = [b'\xf2', b'\xf3', b'\x66', b'\x67', b'\x26', b'\x2e', b'\x36', b'\x64']
+        pf = [x + y for x in singles for y in singles if x != y and not (x[0] in (0x26, 0x2e, 0x36, 0x64) and y[0] in (0x26, 0x2e, 0x36, 0x64)) and set((x[0], y[0])) != set((0xf2, 0xf3))]
+        pf += [b'\xf3\x66\x67', b'\x66\xf2\x67', b'\x67\x66\xf3', b'\xf2\x26\x66', b'\x64\xf3\x66', b'\x66\x36\xf2', b'\xf3\x67\x2e']
+        for op in list(range(0xa4, 0xb0)) + [0x6c, 0x6d, 0x6e, 0x6f, 0xd7, 0x90, 0xc3, 0x9c, 0x9d, 0x60, 0x61, 0x98, 0x99, 0xe3]:
+            for b, cls in x86space.strings_for_cell((0, op), 'quick', seed, prefixes=pf, modrms=[0x00], sibs=[0x24], nfill=1):
+                items.append((b, cls))
     elif shard[0] == 'addr16':
         # the 16-bit ModRM table (67 prefix): every ModRM value of every opcode cell
         for cell in cl:
